@@ -566,6 +566,12 @@ def calc_blockdep(
         # Tiles side by side are only used to replicate the edges of the IFM (tile padding). The IFM coordinates of
         # a job are then not the coordinates of the feature map produced by prev_op, which the analysis below assumes
         return 0
+    if ifm_overlaps and npu_op.ifm.tiles.height_0 < npu_op.ifm.shape.height:
+        # The same applies to tiles on top of each other that address the same rows (the first or last row is
+        # replicated); the tiles of a rolling buffer never overlap
+        used = [r for r in ifm_ranges if r is not None]
+        if any(range_lists_overlap([a], [b]) for i, a in enumerate(used) for b in used[i + 1 :]):
+            return 0
     if not ifm_overlaps and not ifm2_overlaps:
         # No overlap between prev OFM and IFM/IFM2
         return ArchitectureFeatures.MAX_BLOCKDEP
